@@ -18,7 +18,7 @@ func NewTime(t time.Time) (b Time) {
 	startOfYear := time.Date(t.Year(), time.January, 1, 0, 0, 0, 0, time.Local)
 
 	binary.BigEndian.PutUint16(yearBytes, uint16(t.Year()))
-	binary.BigEndian.PutUint32(secondBytes, uint32(t.Sub(startOfYear).Seconds()))
+	binary.BigEndian.PutUint32(secondBytes, uint32(t.Sub(startOfYear)/time.Second))
 
 	return [8]byte(slices.Concat(
 		yearBytes,
